@@ -1,0 +1,81 @@
+//go:build verif
+
+package iface
+
+// Contracts for fabricated interface values (property C07), checked by /verif/bin/govc; comment-only.
+
+// the code address of notImplement, which panics with 'method not implements'
+//@ pure func default_slot() uintptr = rv_pointer(value_of(iface_of(notImplement)))
+
+//@ func notImplement
+//@   props C07
+//@   assigns nothing
+//@   ensures never_returns: false
+//@   panics_only_if always: true
+
+// every slot of the fabricated method table is the panicking default except the mocked one
+//@ func MakeInterface
+//@   props C07
+//@   requires slot: 0 <= funcTabIndex && funcTabIndex < 999
+//@   assigns nothing
+//@   fresh
+//@   invariant loop 1 writes_local_table_only: elems_unchanged_since_entry(uintptr)
+//@   invariant loop 1 filling: 0 <= i && i <= 999 && forall j int :: 0 <= j && j < i ==> funcTabData[j] == default_slot()
+//@   decreases loop 1 999 - i
+//@   ensures non_nil_interface: result != nil && result.Tab != nil && fresh(result.Tab)
+//@   ensures receiver_is_context: result.Data == ctx
+//@   ensures mocked_slot: result.Tab.Fun[funcTabIndex] == itabFunc
+//@   ensures other_slots_panic: forall j int :: 0 <= j && j < 999 && j != funcTabIndex ==> result.Tab.Fun[j] == default_slot()
+
+// the first mock of a variable backs up its two words; later mocks keep the first backup
+//@ func BackUpTo
+//@   props C07
+//@   requires ctx_ok: ctx != nil && ctx.p != nil && iface != nil
+//@   assigns ctx.p.originIface, ctx.p.originIfaceValue
+//@   ensures first_backup_kept: old(ctx.p.originIfaceValue) != nil ==> ctx.p.originIfaceValue == old(ctx.p.originIfaceValue) && ctx.p.originIface == old(ctx.p.originIface)
+//@   ensures backs_up_variable: old(ctx.p.originIfaceValue) == nil ==> ctx.p.originIface == (*hack.Iface)(iface) && fresh(ctx.p.originIfaceValue)
+//@     | && ctx.p.originIfaceValue.Tab == (*hack.Iface)(iface).Tab && ctx.p.originIfaceValue.Data == (*hack.Iface)(iface).Data
+
+// Cancel writes the backed-up words back into the variable
+//@ func (c *IContext) Cancel
+//@   props C07
+//@   requires backed_up: c != nil && c.p != nil && c.p.originIface != nil && c.p.originIfaceValue != nil
+//@   assigns c.p.originIface.Tab, c.p.originIface.Data, c.p.canceled
+//@   ensures variable_restored: c.p.originIface.Tab == old(c.p.originIfaceValue.Tab) && c.p.originIface.Data == old(c.p.originIfaceValue.Data)
+//@   ensures canceled: c.p.canceled
+
+//@ func (c *IContext) Canceled
+//@   props C07
+//@   requires ok: c != nil && c.p != nil
+//@   assigns nothing
+//@   ensures field: result == c.p.canceled
+//@ func (c *IContext) Cached
+//@   props C07
+//@   requires ok: c != nil && c.p != nil
+//@   assigns nothing
+//@   ensures lookup: ok == (c.p.ifaceCache != nil && has(c.p.ifaceCache, key)) && (ok ==> v == c.p.ifaceCache[key])
+//@ func (c *IContext) Cache
+//@   props C07
+//@   requires ok: c != nil && c.p != nil && c.p.ifaceCache != nil
+//@   assigns c.p.ifaceCache[key]
+//@   ensures stored: has(c.p.ifaceCache, key) && c.p.ifaceCache[key] == value
+
+// A stub is 48 bytes of executable space (C20) holding `movabs rdx, <func value>; jmp [rdx]` (C15).
+//@ func MakeMethodCaller
+//@   props C07 C20
+//@   requires holder: stub.holder_wf()
+//@   assigns stub.placeHolderIns.off, ticket_lo, ticket_hi, textmem, perm, rw_wheld[addr(memory.memoryAccessLock)]
+//@   ensures error_or_stub: result1 != nil ==> result0 == 0
+//@ func MakeMethodCallerWithCtx
+//@   props C07 C20
+//@   requires holder: stub.holder_wf()
+//@   assigns stub.placeHolderIns.off, ticket_lo, ticket_hi, textmem, perm, rw_wheld[addr(memory.memoryAccessLock)]
+//@   ensures error_or_stub: result1 != nil ==> result0 == 0
+
+// GenCallableMethod reads the func-value word of a reflect.Value through hack.Value (unsafe) and
+// builds the stub: TRUSTED.  Whether the callback embedded in the stub stays reachable for the GC is
+// not expressible as a contract on this code (see DESIGN, C07 retention).
+//@ trusted func GenCallableMethod
+//@   props C07
+//@   assigns stub.placeHolderIns.off, ticket_lo, ticket_hi, textmem, perm, rw_wheld[addr(memory.memoryAccessLock)], ctx.p.proxyFunc
+//@   may_panic
